@@ -253,7 +253,7 @@ func runSignVar(sc M) {
 		}
 		ev["object_consistent"] = oc
 		// signature facts
-		sf := M{"bare": false, "detached": false, "sha256": false, "one_signer": false, "sid_is_cert": false, "rsa_ok": false}
+		sf := M{"bare": false, "detached": false, "sha256": false, "one_signer": false, "sid_is_cert": false, "rsa_ok": false, "times_der": true}
 		pb, perr := projectP7(sig)
 		if perr == nil {
 			sf["bare"] = !pb.Wrapped
@@ -264,6 +264,10 @@ func runSignVar(sc M) {
 				s := &pb.Signers[0]
 				sf["sid_is_cert"] = bytes.Equal(s.IssuerRaw, cert.RawIssuer) && s.Serial.Cmp(cert.SerialNumber) == 0 && s.DigestAlg.Equal(oidSHA256)
 				sf["rsa_ok"] = s.HasAttrs && rsaOK(&testKey(key).PublicKey, setOf(s.AttrsRaw), s.Sig)
+				if st := s.attr(oidSigningTime); st != nil {
+					// DER: a UTCTime / GeneralizedTime value is written in UTC and ends in "Z", whatever zone the process runs in
+					sf["times_der"] = len(st.Values) > 2 && st.Values[len(st.Values)-1] == 'Z'
+				}
 			}
 		}
 		ev["sig"] = sf
